@@ -399,7 +399,7 @@ public:
 
   const_iterator(const const_iterator& other);
   const_iterator& operator++();
-  const_iterator& operator++(int);
+  const_iterator operator++(int);
   bool operator==(const const_iterator& other) const;
   bool operator!=(const const_iterator& other) const;
   reference operator*() const;
@@ -437,7 +437,7 @@ public:
 
   iterator(const iterator& other);
   iterator& operator++();
-  iterator& operator++(int);
+  iterator operator++(int);
   bool operator==(const iterator& other) const;
   bool operator!=(const iterator& other) const;
   reference operator*();
